@@ -218,8 +218,10 @@ func checkC14Accounting(w *World, r *Report, ri *recInfo) {
 	}
 }
 
-func checkC14Header(w *World, r *Report, ri *recInfo) {
-	ru := r.Rule("C14.2", "header discipline: a final status is forwarded to the underlying writer only while nothing has been written (size == notWritten), informational statuses (1xx except 101) pass through without touching the state, and size leaves notWritten only together with a forwarded header or a positive byte count", 3)
+func checkC14Header(w *World, r *Report, ri *recInfo) { checkC14HeaderAs(w, r, ri, "C14.2") }
+
+func checkC14HeaderAs(w *World, r *Report, ri *recInfo, id string) {
+	ru := r.Rule(id, "header discipline: a final status is forwarded to the underlying writer only while nothing has been written (size == notWritten), informational statuses (1xx except 101) pass through without touching the state, and size leaves notWritten only together with a forwarded header or a positive byte count", 3)
 	for _, fn := range w.MethodsOf("recorder") {
 		recv := ssa.Value(fn.Params[0])
 		eachInstr(fn, func(in ssa.Instruction) {
@@ -368,8 +370,10 @@ func checkC14Header(w *World, r *Report, ri *recInfo) {
 	ru.Check("(*recorder).reset", w.Pos(rs.Pos()), "reset sets size = notWritten, status = 200, hijacked = false and installs the writer", okR, fmt.Sprintf("size=%s status=%s hijacked=%s", vals[ri.size], vals[ri.status], vals[ri.hijacked]))
 }
 
-func checkC14Paths(w *World, r *Report, ri *recInfo) {
-	ru := r.Rule("C14.3", "fast and fallback paths agree: the ReadFrom fallback copies through the recorder's own Write (so it is accounted like any write); FlushError forwards the pending header through the recorder before flushing, in both flusher forms", 2)
+func checkC14Paths(w *World, r *Report, ri *recInfo) { checkC14PathsAs(w, r, ri, "C14.3") }
+
+func checkC14PathsAs(w *World, r *Report, ri *recInfo, id string) {
+	ru := r.Rule(id, "fast and fallback paths agree: the ReadFrom fallback copies through the recorder's own Write (so it is accounted like any write); FlushError forwards the pending header through the recorder before flushing, in both flusher forms", 2)
 	rf := w.Method("recorder", "ReadFrom")
 	found := false
 	eachInstr(rf, func(in ssa.Instruction) {
